@@ -113,55 +113,49 @@ pub fn clear_rules() {
     BREAKER_MAP.write().unwrap().clear();
 }
 
+/// `append_rule` adds one rule to the rules already loaded for its resource.
+/// The circuit breakers of the rules that are already active are kept as they are.
+/// Returns `false` when the rule is already loaded, invalid or cannot be built.
+// This func acquires locks on global `CURRENT_RULES`, `BREAKER_MAP` and `BREAKER_RULES`
+// (in the same order as `load_rules`), please release your locks on them before calling this func
 pub fn append_rule(rule: Arc<Rule>) -> bool {
-    if CURRENT_RULES
-        .lock()
-        .unwrap()
+    let mut global_rule_map = CURRENT_RULES.lock().unwrap();
+    if global_rule_map
         .get(&rule.resource)
-        .unwrap_or(&HashSet::new())
-        .contains(&rule)
+        .map_or(false, |rules| rules.contains(&rule))
     {
         return false;
     }
-    match rule.is_valid() {
-        Ok(_) => {
-            CURRENT_RULES
-                .lock()
-                .unwrap()
-                .entry(rule.resource.clone())
-                .or_default()
-                .insert(Arc::clone(&rule));
-            BREAKER_RULES
-                .write()
-                .unwrap()
-                .entry(rule.resource.clone())
-                .or_default()
-                .insert(Arc::clone(&rule));
-        }
-        Err(err) => logging::warn!(
-            "[Hot Spot append_rule] Ignoring invalid flow rule {:?}, reason: {:?}",
+    if let Err(err) = rule.is_valid() {
+        logging::warn!(
+            "[CircuitBreaker append_rule] Ignoring invalid circuit breaking rule {:?}, reason: {:?}",
             rule,
             err
-        ),
+        );
+        return false;
     }
-    let mut placeholder = Vec::new();
-    let new_tcs_of_res = build_resource_circuit_breaker(
-        &rule.resource,
-        BREAKER_RULES.read().unwrap().get(&rule.resource).unwrap(),
-        BREAKER_MAP
-            .write()
-            .unwrap()
-            .get_mut(&rule.resource)
-            .unwrap_or(&mut placeholder),
-    );
-    if !new_tcs_of_res.is_empty() {
-        BREAKER_MAP
-            .write()
-            .unwrap()
-            .entry(rule.resource.clone())
-            .or_default()
-            .push(Arc::clone(&new_tcs_of_res[0]));
+    let mut global_breaker_map = BREAKER_MAP.write().unwrap();
+    // build the circuit breaker of the new rule only
+    let mut single_rule = HashSet::with_capacity(1);
+    single_rule.insert(Arc::clone(&rule));
+    let new_cbs = build_resource_circuit_breaker(&rule.resource, &single_rule, &mut Vec::new());
+    if new_cbs.is_empty() {
+        return false;
     }
+    global_breaker_map
+        .entry(rule.resource.clone())
+        .or_default()
+        .extend(new_cbs);
+    BREAKER_RULES
+        .write()
+        .unwrap()
+        .entry(rule.resource.clone())
+        .or_default()
+        .insert(Arc::clone(&rule));
+    global_rule_map
+        .entry(rule.resource.clone())
+        .or_default()
+        .insert(rule);
     true
 }
 
